@@ -1,5 +1,5 @@
 # configuration of ./check for property C18 (see props_config.py)
-CONFIG = {'gen': ['NbnsDispatch', 'ServerFacts'],
+CONFIG = {'gen': ['NbnsDispatch', 'ServerFacts', 'ServerFacts2'],
  'rule': 'cases = (a) c18.dispatch: one request per case to a fresh NBNS server on a loopback socket (standalone Server / UDPServer / '
          'TCPServer), all 16 opcodes x each server x 20 (quick) / 120 (thorough) settings of the other 12 flag bits (none, R, group, '
          'broadcast, all, random) x three prepared tables x question/record present or absent; the observable outcome (response id, flags, '
@@ -10,36 +10,61 @@ CONFIG = {'gen': ['NbnsDispatch', 'ServerFacts'],
          'and the answer for that request), LLMNR client routing (shuffled responses, non-responses and unknown ids against registered '
          'query channels, and Client.Query itself), Stop/Close at 10/200 random moments under traffic for the five loops (returns within a '
          '60 s watchdog, second call does not panic, goroutine count returns to the baseline within 30 s); distinct = distinct input line; '
-         'non-trivial = implementation output is a non-empty value LLMNR client routing: a third of the waiting ids are answered two to four times; if any waiter gets nothing, five further single responses to fresh ids must be delivered (liveness of the read loop); the stop scenario of the client includes an id that is answered continuously and never collected. Half of the LLMNR server scenarios (all stop scenarios) run with the HandlerDescribePacket of the library (which logs under logger.Lock) ahead of the answering handler and with debug mode on.',
- 'assumptions': ["a handler goroutine's bytes are either a window of the loop buffer or its own copy: which one is the extracted fact "
-                 'ServerFacts (taint of the `go` arguments from buffers made outside the loop; llmnr.DecodeMessage accepted as '
-                 'non-retaining by a syntactic check of every use of its parameter)',
-                 'Close of a socket makes a blocked Read/Accept return an error (contract of package net) - the hypothesis `Consistent` of '
-                 'stop_terminates',
+         'non-trivial = implementation output is a non-empty value LLMNR client routing: a third of the waiting ids are answered two to '
+         'four times; if any waiter gets nothing, five further single responses to fresh ids must be delivered (liveness of the read '
+         'loop); the stop scenario of the client includes an id that is answered continuously and never collected. Half of the LLMNR '
+         'server scenarios (all stop scenarios) run with the HandlerDescribePacket of the library (which logs under logger.Lock) ahead of '
+         'the answering handler and with debug mode on.',
+ 'assumptions': ["a handler goroutine's bytes are either a window of the loop buffer or its own copy, and the copy is taken in the loop "
+                 'body before the `go` statement: extracted facts ServerFacts (taint of the `go` arguments and of what a `go func` literal '
+                 'captures, from buffers made outside the loop; llmnr.DecodeMessage accepted as non-retaining by a syntactic check of '
+                 'every use of its parameter) and ServerFacts2.spawns.copyPlace',
+                 'Close of a socket / connection makes a blocked Read/Accept return an error (contract of package net) - the hypothesis '
+                 '`Consistent` of stop_terminates and the read clause of `TValid` in stop_closes_every_connection',
+                 'the remote endpoint is unique among the live connections accepted by one listener (TCP identifies a connection by its '
+                 "two endpoints; the local one is the listener's) - the key clause of `TValid`; the extracted fact is that the registry "
+                 'key is `conn.RemoteAddr().String()` of the stored connection, stored and deleted under the same expression',
+                 'sync.WaitGroup: Wait returns iff the counter is zero; an Add from zero while a Wait is in progress and a Done below zero '
+                 'are misuse (package documentation) - the model `wgstep`; Stop is called after Start has returned (the Add of Start '
+                 'precedes every Wait); sync.Map Range visits every entry stored before it starts (modelled as one atomic step); '
+                 'sync.Mutex.Lock proceeds iff nobody holds the mutex, the caller included (`lenabled`)',
+                 'a 1-buffered channel accepts one message without a receiver; Query receives from its channel at most once (its select '
+                 'returns) and deregisters afterwards - the model `cstep`',
+                 'functions of the standard library called while logger.Lock() is held (fmt, net) do not call back into package logger',
                  'NBNS packet encoding/decoding (Marshal/Unmarshal, C10) is outside this model: requests are given to the model as parsed '
                  'fields',
                  'lost datagrams and slow responses are counted in the evidence and never reported; the only time bounds are 60 s '
                  'watchdogs on Stop/Serve returning and 30 s for goroutines to settle',
                  'race detector: built on the fly with `go build -race` (cgo/gcc available offline here); '
                  'evidence.extra.sockets.race_build says whether it was used'],
- 'trusted': ['package net, sync.Once, sync.WaitGroup, sync.Map, Go scheduler',
+ 'trusted': ['package net, sync.Once, sync.WaitGroup, sync.Map, sync.Mutex, channels, Go scheduler (modelled by their enabling conditions, '
+             'see assumptions)',
              'Go race detector (finds races on executed schedules; does not exclude them)'],
  'technique': 'Lean 4 proof: bit-vector case analysis over all 16-bit flag words on constants regenerated from the source; induction over '
-              'arbitrary schedules of an interleaving model and of a shutdown transition system; extracted facts decided by the kernel; '
-              'handler model tied to the servers by differential correspondence over loopback sockets; concurrent behaviour observed under '
-              'the race detector',
+              'arbitrary schedules of an interleaving model, of a shutdown transition system and of five small mechanism models (channel '
+              'hand-off, connection registry, WaitGroup, copy placement, non-reentrant mutex), each with a witness schedule for the broken '
+              "mechanism; the mechanisms' parameters are extracted facts decided by the kernel; handler model tied to the servers by "
+              'differential correspondence over loopback sockets; concurrent behaviour observed under the race detector',
  'level_text': "Theorems opcode_dispatch (all 65 536 flag words x 3 servers: the code's switch selects the RFC 1002 handler of bits "
                '11..14), query_guard_exact, handle_eq_spec, response_carries_request_id, response_answers_the_request, response_header, '
                'handlers_short_circuit, route_matching_id / route_delivers / route_leaves_others (LLMNR client), isolated_if_copied / '
                'isolated_ids / one_response_per_request (every schedule of the receive-loop model) with shared_view_leaks (existence of a '
                'leaking schedule when the buffer is shared) and no_loop_shares_its_buffer (extracted), stop_terminates, '
                'stop_twice_panics_without_once, stop_any_number_of_times_with_once, stops_close_once_and_unblock (extracted) are proved in '
-               'Lean; the handler model is tied to the real servers by running both on the same requests over loopback sockets on every '
-               'run.',
+               'Lean. Mechanisms of the stop / isolation clauses, each as fact + theorem + witness (Model/C18Stop.lean, '
+               'Gen/ServerFacts2.lean): readloop_never_blocks / blocking_handoff_wedges / handoff_is_nonblocking (the hand-off of the '
+               'LLMNR client is a select with default), stop_closes_every_connection / constant_key_leaves_connection_open / '
+               'registry_key_is_peer_address (TCP connection registry keyed per live connection), waitgroup_discipline_sound / '
+               'add_inside_goroutine_races / done_not_deferred_blocks_wait / waitgroup_discipline_holds (Add before go under a held count, '
+               'Done deferred first, Wait after close), isolated_if_copied_before_go / copy_inside_goroutine_leaks / copy_taken_before_go, '
+               'no_deadlock_without_reentry / reentrant_lock_deadlocks / held_program_well_nested_iff / '
+               'logger_calls_under_lock_do_not_reacquire (nothing called under logger.Lock() takes LoggerLock). The handler model is tied '
+               'to the real servers by running both on the same requests over loopback sockets on every run.',
  'level_note': 'PARTIAL for the runtime clauses: goroutine scheduling, absence of data races, prompt exit and absence of leaked goroutines '
                'are OBSERVED by the harness (loopback sockets, race detector, goroutine counts) and PROVED only of the interleaving / '
-               'transition-system models; the link between those models and the code is the extracted facts (go-statement arguments, '
-               'sync.Once around close, select on the quit channel) plus that observation, not a translation. Proof level for dispatch, '
-               'response contents and client routing (hand model + Gen constants + differential tie). Trusted: Lean kernel; axioms '
-               'propext, Classical.choice, Quot.sound; extractors tools/extract/nbns_dispatch.go and server_facts.go; package net; the '
-               'race detector.'}
+               'transition-system models; the link between those models and the code is the extracted facts (go-statement arguments and '
+               'captures, copy placement, sync.Once around close, select on the quit channel, select-with-default around the channel send, '
+               'registry key expression and Range-close in Stop, Add/Done/Wait placement, the call graph under logger.Lock()) plus that '
+               'observation, not a translation. Proof level for dispatch, response contents and client routing (hand model + Gen constants '
+               '+ differential tie). Trusted: Lean kernel; axioms propext, Classical.choice, Quot.sound; extractors '
+               'tools/extract/nbns_dispatch.go, server_facts.go and server_facts2.go; package net; the race detector.'}
